@@ -12,6 +12,13 @@
 //          | :scr <fork_ok 0|1> <n> wout*n         wout ::= :ei | :er <errno> | :x <k> | :k <sig> <core 0|1> | :s <sig> | :c
 //          | :real <n> act*n (x5: plugin pre action, setup, body, teardown, plugin post action) <n> inj*n
 //                                                  act ::= :r <sig> | :e <k> | :f        inj ::= :ei | :er | :re
+//          | :env <chld 0..5> <n> sib*n <eintr> <the fields of :real>      a real child under a process-level configuration:
+//                 chld = what the program did to SIGCHLD: 0 SIG_DFL, 1 SIG_IGN, 2 SIG_DFL + SA_NOCLDWAIT, 3 handler + SA_NOCLDWAIT,
+//                        4 a handler that reaps with waitpid(-1, .., WNOHANG) and has run before the runner's wait, 5 a handler that only counts
+//                 sib ::= :sx <late 0|1> <k> | :sk <late 0|1> <sig>   another child of the runner: _exit(k) / killed by sig; dead before the
+//                        test's child is forked (late = 0: a zombie under chld 0 / 5) or ending while the test's child is waited for
+//                 eintr = number of GENUINE EINTR answers: the child is held back, a periodic timer signal with a non-restarting handler
+//                        interrupts the blocked wait; the child is let go in front of real wait number <eintr>
 // Observation, per pass:  per test met ":t <started> <nf> cat*nf <waitpid calls> <SIGCONT seen> <lost>"   cat ::= :x | :k <sig> | :s | :fk | :wi | :w | :ck | :o
 //                         then         ":end <failure count> <isFailure> <run count> <ignored count> <late>"
 //              and, if the runner's own process did not live through all the passes,  ":died <pass> :killed|:exited|:stopped <n>"
@@ -23,8 +30,11 @@
 // Separate process: a one-pass line with all_sep = 0 gives scripted and real tests a flag of their own (:own); with all_sep = 1 NO
 // test carries its own flag, every child comes from the registry-wide flag alone.
 // Scripted tests replace PlatformSpecificFork / PlatformSpecificWaitPid by stubs replaying the outcome list (errno set); the "child"
-// pid they report is the runner's own pid, so the runner's kill(pid, SIGCONT) is counted by a SIGCONT handler.  Real tests fork;
-// waitpid is the real one behind a wrapper that counts calls and can inject EINTR / an error in front of it.
+// pid they report is the runner's own pid, so the runner's kill(pid, SIGCONT) is counted by a SIGCONT handler.  Real tests go
+// through the library's OWN implementations of the two seams (the values PlatformSpecificFork / PlatformSpecificWaitPid had at
+// start-up: PlatformSpecificForkImplementation / PlatformSpecificWaitPidImplementation) behind a wrapper that counts calls and can
+// inject EINTR / an error in front of the real call -- so what those implementations do with the kernel's answers (the status, -1
+// with ECHILD, -1 with EINTR) is inside what is observed.
 #include <unistd.h>
 #include <signal.h>
 #include <errno.h>
@@ -33,6 +43,7 @@
 #include <sys/prctl.h>
 #include <sys/resource.h>
 #include <sys/time.h>
+#include <time.h>
 #include "hlib.h"
 #include "CppUTest/TestHarness.h"
 #include "CppUTest/TestRegistry.h"
@@ -61,8 +72,11 @@ struct TestDef {
     std::vector<Wout> ws;
     std::vector<Act> ph[5];
     std::vector<int> inj;                               // 0 EINTR, 1 error, 2 real
+    bool env; int chld; int eintr;                      // process-level configuration (see the head of the file)
+    std::vector<Act> sibs;                              // kind 0/1 = _exit(arg) early/late, 2/3 = killed by arg early/late
+    int realCalls;                                      // calls that reached the real wait
     // what happened
-    int calls, conts; pid_t cpid; bool forkCalled; bool lost;
+    int calls, conts; pid_t cpid; bool forkCalled; bool lost; bool settled;
     std::vector<std::string> cats;
 };
 struct Step { bool sep, ri; std::vector<int> add; };   // add: indices into gT, in the order in which the tests are to be met
@@ -70,7 +84,7 @@ static std::vector<TestDef> gT;
 static std::vector<Step> gSteps;
 static int gCur = -1;
 static int gPass = 0;
-struct Shared { volatile int pass; volatile int late; volatile int done; volatile int chunks; volatile unsigned char marks[4000]; };
+struct Shared { volatile int pass; volatile int late; volatile int done; volatile int chunks; volatile int release; volatile int sibgo; volatile unsigned char marks[4000]; };
 static Shared* gSh;                                     // shared with the runner and its children
 #define gMarks (gSh->marks)                             // test i reached its first action point (in the current pass)
 static int effKind(int i) { return gPass < gT[i].from ? 0 : gT[i].kind; }          // before its pass a test is an empty passing test
@@ -82,6 +96,21 @@ static bool gRunaway;
 static void setDeadline(long ms);
 static void onAlarm(int) { gLate = 1; if (gLiveChild > 0) kill(gLiveChild, SIGKILL); setDeadline(100); }   // re-armed: later tests of the scenario may hang too
 static void onCont(int) { if (gCur >= 0) gT[gCur].conts++; }   // only ever raised synchronously by the runner's kill(own pid, SIGCONT)
+
+static void envOff();                                   // back to the default configuration (defined with the wrappers below)
+// a child the runner left behind when it returned from test i: found (and ended) before anything else happens in the process
+static void settle(int i)
+{
+    TestDef& d = gT[i];
+    if (d.cpid <= 0 || d.settled) return;
+    d.settled = true;
+    int cs = 0; pid_t r = waitpid(d.cpid, &cs, WNOHANG);
+    if (r == d.cpid) d.lost = true;
+    else if (r == 0) { d.lost = true; kill(d.cpid, SIGKILL); while (waitpid(d.cpid, &cs, 0) < 0 && errno == EINTR) {} }
+    // a child the kernel / the program's handler takes away is never "left behind" by the runner (and whether it was still there
+    // at this moment would be a race)
+    if (effKind(i) == 2 && d.env && d.chld != 0 && d.chld != 5) d.lost = false;
+}
 
 static void interp(const std::vector<Act>& v, bool plugin, TestResult* res, UtestShell* sh)
 {
@@ -165,6 +194,8 @@ public:
     void flush() CPPUTEST_OVERRIDE {}
     void printCurrentTestStarted(const UtestShell& t) CPPUTEST_OVERRIDE
     {
+        if (gCur >= 0) settle(gCur);                          // the test before: its child, if left behind, and
+        envOff();                                             // its configuration
         gCur = atoi(t.getName().asCharString() + 1);
         if (gCur < 0 || gCur >= (int)gT.size()) gCur = -1;
     }
@@ -176,6 +207,95 @@ public:
     }
 };
 
+// ---- process-level configuration of the runner while one test's child is waited for ----
+static int (*origFork)(void);
+static int (*origWait)(int, int*, int);
+static volatile sig_atomic_t gChldSeen;
+static void chldReaper(int) { int e = errno; int st; while (waitpid(-1, &st, WNOHANG) > 0) {} gChldSeen = 1; errno = e; }
+static void chldCounter(int) { gChldSeen = gChldSeen + 1; }
+static void usr2Noop(int) {}
+static std::vector<pid_t> gSibs;
+static bool gEnvOn = false;
+static timer_t gTimer; static bool gTimerMade = false;
+
+static void setChld(int mode)
+{
+    struct sigaction sa; memset(&sa, 0, sizeof sa); sigemptyset(&sa.sa_mask);
+    switch (mode) {
+    case 1: sa.sa_handler = SIG_IGN; break;
+    case 2: sa.sa_handler = SIG_DFL; sa.sa_flags = SA_NOCLDWAIT; break;
+    case 3: sa.sa_handler = chldCounter; sa.sa_flags = SA_NOCLDWAIT | SA_RESTART; break;
+    case 4: sa.sa_handler = chldReaper; sa.sa_flags = SA_RESTART; break;
+    case 5: sa.sa_handler = chldCounter; sa.sa_flags = SA_NOCLDSTOP | SA_RESTART; break;
+    default: sa.sa_handler = SIG_DFL; break;
+    }
+    sigaction(SIGCHLD, &sa, 0);
+}
+static void armTimer(bool on)
+{
+    struct itimerspec its; memset(&its, 0, sizeof its);
+    if (on) { its.it_value.tv_nsec = 150000; its.it_interval.tv_nsec = 150000; }
+    timer_settime(gTimer, 0, &its, 0);
+}
+// wait (without reaping) until this child of ours has changed state or is no longer ours
+static void untilChanged(pid_t p, int what)
+{
+    siginfo_t si;
+    for (;;) { memset(&si, 0, sizeof si); if (waitid(P_PID, (id_t)p, &si, what | WNOWAIT) < 0 && errno == EINTR) continue; break; }
+}
+static void envOff()
+{
+    if (!gEnvOn) return;
+    gEnvOn = false;
+    if (gTimerMade) armTimer(false);
+    gSh->release = 1; gSh->sibgo = 1;
+    setChld(0);
+    signal(SIGUSR2, SIG_DFL);
+    for (size_t i = 0; i < gSibs.size(); i++) {
+        int st = 0; pid_t r = waitpid(gSibs[i], &st, WNOHANG);
+        if (r == 0) { kill(gSibs[i], SIGKILL); while (waitpid(gSibs[i], &st, 0) < 0 && errno == EINTR) {} }
+    }
+    gSibs.clear();
+}
+static void childSide()
+{
+    prctl(PR_SET_PDEATHSIG, SIGKILL);
+    signal(SIGALRM, SIG_DFL);
+    signal(SIGCONT, SIG_DFL);
+    signal(SIGCHLD, SIG_DFL);
+    signal(SIGUSR2, SIG_DFL);
+    { struct itimerval z; memset(&z, 0, sizeof z); setitimer(ITIMER_REAL, &z, 0); }
+}
+static void envOn(TestDef& d)
+{
+    gEnvOn = true;
+    gSh->release = d.eintr > 0 ? 0 : 1; gSh->sibgo = 0; gChldSeen = 0;
+    setChld(d.chld);
+    if (d.eintr > 0) {
+        struct sigaction sa; memset(&sa, 0, sizeof sa); sigemptyset(&sa.sa_mask); sa.sa_handler = usr2Noop;   // no SA_RESTART
+        sigaction(SIGUSR2, &sa, 0);
+        if (!gTimerMade) {
+            struct sigevent ev; memset(&ev, 0, sizeof ev); ev.sigev_notify = SIGEV_SIGNAL; ev.sigev_signo = SIGUSR2;
+            if (timer_create(CLOCK_MONOTONIC, &ev, &gTimer) < 0) { perror("timer_create"); _exit(3); }
+            gTimerMade = true;
+        }
+    }
+    for (size_t i = 0; i < d.sibs.size(); i++) {
+        const Act& b = d.sibs[i];
+        fflush(stdout);
+        pid_t s = fork();
+        if (s == 0) {
+            childSide();
+            if (b.kind & 1) while (!gSh->sibgo) usleep(50);
+            if (b.kind < 2) _exit(b.arg);
+            raise(b.arg); _exit(99);
+        }
+        if (s < 0) { perror("fork (sibling)"); _exit(3); }
+        gSibs.push_back(s);
+        if (!(b.kind & 1)) untilChanged(s, WEXITED);         // dead (a zombie, or already taken away) before the test's child exists
+    }
+}
+
 extern "C" {
 static int forkWrapper(void)
 {
@@ -186,13 +306,13 @@ static int forkWrapper(void)
         if (!d.forkOk) { errno = EAGAIN; return -1; }
         return (int)getpid();
     }
+    envOff();
+    if (effKind(gCur) == 2 && d.env) envOn(d);
     fflush(stdout);
-    pid_t p = fork();
+    pid_t p = (pid_t)origFork();                 // the library's own implementation of the seam
     if (p == 0) {
-        prctl(PR_SET_PDEATHSIG, SIGKILL);
-        signal(SIGALRM, SIG_DFL);
-        signal(SIGCONT, SIG_DFL);
-        { struct itimerval z; memset(&z, 0, sizeof z); setitimer(ITIMER_REAL, &z, 0); }
+        childSide();
+        while (!gSh->release) usleep(50);        // held back while genuine EINTRs are produced
         return 0;
     }
     if (p > 0) { d.cpid = p; gLiveChild = p; }
@@ -221,8 +341,24 @@ static int waitWrapper(int pid, int* status, int options)
         if (d.inj[k] == 0) { errno = EINTR; return -1; }
         if (d.inj[k] == 1) { errno = EIO; return -1; }
     }
-    int r = waitpid(pid, status, options);
+    bool env = effKind(gCur) == 2 && d.env && gEnvOn;
+    int j = d.realCalls++;
+    if (env && !gSh->sibgo) gSh->sibgo = 1;                     // the late siblings end while this child is waited for
+    if (env && j < d.eintr) {                                   // the child is held back: the kernel answers EINTR
+        armTimer(true);
+        int r = origWait(pid, status, options);
+        int e = errno;
+        armTimer(false);                                        // nothing of it is pending any more when this returns
+        errno = e;
+        if (r == pid && (WIFEXITED(*status) || WIFSIGNALED(*status))) gLiveChild = 0;
+        return r;
+    }
+    if (env && j == d.eintr) gSh->release = 1;
+    if (env && d.chld == 4 && d.cpid > 0) untilChanged(d.cpid, WEXITED | WSTOPPED);   // the program's handler has run before this wait
+    int r = origWait(pid, status, options);                     // the library's own implementation of the seam
+    int e = errno;
     if (r == pid && (WIFEXITED(*status) || WIFSIGNALED(*status))) gLiveChild = 0;
+    errno = e;
     return r;
 }
 }
@@ -244,7 +380,8 @@ static std::vector<Act> parseActs(Toks& t)
 static TestDef parseTest(Toks& t)
 {
     TestDef d; d.kind = 0; d.ign = false; d.own = false; d.from = 0; d.fail = false; d.forkOk = true;
-    d.calls = 0; d.conts = 0; d.cpid = 0; d.forkCalled = false; d.lost = false;
+    d.calls = 0; d.conts = 0; d.cpid = 0; d.forkCalled = false; d.lost = false; d.settled = false;
+    d.env = false; d.chld = 0; d.eintr = 0; d.realCalls = 0;
     if (t.peek() == ":from") { t.next(); d.from = t.n(); }
     if (t.peek() == ":own") { t.next(); d.own = true; }
     if (t.peek() == ":ign") { t.next(); d.ign = true; }
@@ -265,8 +402,21 @@ static TestDef parseTest(Toks& t)
             d.ws.push_back(w);
         }
     }
-    else if (k == "real") {
+    else if (k == "real" || k == "env") {
         d.kind = 2;
+        if (k == "env") {
+            d.env = true;
+            d.chld = t.n(); if (d.chld < 0 || d.chld > 5) { fprintf(stderr, "harness: bad SIGCHLD configuration\n"); exit(3); }
+            int ns = t.n(); if (ns > 8) { fprintf(stderr, "harness: too many siblings\n"); exit(3); }
+            for (int j = 0; j < ns; j++) {
+                std::string sk = t.sym(); Act b; int late = t.n() != 0 ? 1 : 0; b.arg = t.n();
+                if (sk == "sx") { b.kind = late; b.arg &= 255; }
+                else if (sk == "sk") { b.kind = 2 + late; if (b.arg < 1 || b.arg > 31) { fprintf(stderr, "harness: sibling signal out of 1..31\n"); exit(3); } }
+                else { fprintf(stderr, "harness: bad sibling %s\n", sk.c_str()); exit(3); }
+                d.sibs.push_back(b);
+            }
+            d.eintr = t.n(); if (d.eintr > 64) { fprintf(stderr, "harness: too many interruptions\n"); exit(3); }
+        }
         for (int p = 0; p < 5; p++) d.ph[p] = parseActs(t);
         int m = t.n();
         for (int j = 0; j < m; j++) { std::string ik = t.sym(); d.inj.push_back(ik == "ei" ? 0 : ik == "er" ? 1 : 2); }
@@ -331,7 +481,7 @@ static int runScenario()
         present.insert(present.begin(), st.add.begin(), st.add.end());
         for (size_t q = 0; q < present.size(); q++) {
             TestDef& d = gT[present[q]];
-            d.calls = 0; d.conts = 0; d.cpid = 0; d.forkCalled = false; d.lost = false; d.cats.clear();
+            d.calls = 0; d.conts = 0; d.cpid = 0; d.forkCalled = false; d.lost = false; d.settled = false; d.cats.clear(); d.realCalls = 0;
         }
         memset((void*)gMarks, 0, sizeof gSh->marks);
         gCur = -1; gLate = 0; gRunaway = false; gLiveChild = 0;
@@ -342,18 +492,14 @@ static int runScenario()
             setDeadline(deadlineMs());
             reg.runAllTests(result);
             setDeadline(0);
+            if (gCur >= 0) settle(gCur);
+            envOff();
             if (gLate) { gLates++; gSh->late = 1; }
             total = result.getFailureCount(); runCount = result.getRunCount(); ignCount = result.getIgnoredCount(); isFail = result.isFailure();
         }
         gCur = -1;
         // children the runner left behind
-        for (size_t q = 0; q < present.size(); q++) {
-            TestDef& d = gT[present[q]];
-            if (d.cpid <= 0) continue;
-            int cs = 0; pid_t r = waitpid(d.cpid, &cs, WNOHANG);
-            if (r == d.cpid) d.lost = true;
-            else if (r == 0) { d.lost = true; kill(d.cpid, SIGKILL); waitpid(d.cpid, &cs, 0); }
-        }
+        for (size_t q = 0; q < present.size(); q++) settle(present[q]);
         Out o;
         for (size_t q = 0; q < present.size(); q++) {
             int i = present[q];
@@ -382,13 +528,15 @@ static int mainLoop()
     struct rlimit rl; rl.rlim_cur = rl.rlim_max = 0; setrlimit(RLIMIT_CORE, &rl);
     gSh = (Shared*)mmap(0, sizeof(Shared), PROT_READ | PROT_WRITE, MAP_SHARED | MAP_ANONYMOUS, -1, 0);
     if (gSh == MAP_FAILED) { perror("mmap"); return 3; }
+    origFork = PlatformSpecificFork;                         // PlatformSpecificForkImplementation
+    origWait = PlatformSpecificWaitPid;                      // PlatformSpecificWaitPidImplementation
     PlatformSpecificFork = forkWrapper;
     PlatformSpecificWaitPid = waitWrapper;
 
     Toks t;
     while (readline(t)) {
         parseScenario(t);
-        gSh->pass = 0; gSh->late = 0; gSh->done = 0; gSh->chunks = 0;
+        gSh->pass = 0; gSh->late = 0; gSh->done = 0; gSh->chunks = 0; gSh->release = 1; gSh->sibgo = 0;
         fflush(stdout);
         pid_t runner = fork();
         if (runner < 0) { perror("fork"); return 3; }
